@@ -82,6 +82,10 @@ def main():
             print(json.dumps({'id': sid, 'status': 'suite fails with the change', 'log': r.stdout[-400:]})); return 2
         # demonstration, both ways
         extra = demo_flags(open(demo, errors='replace').read())
+        if prop == 'C19':       # the demonstrations of C19 are about the unsigned-char configuration
+            extra = [f for f in extra if f not in ('-fsigned-char', '-funsigned-char')] + ['-funsigned-char']
+            if '-DNDEBUG' not in extra:
+                extra.append('-DNDEBUG')
         res = {}
         for name, root in (('original', orig), ('changed', chg)):
             b = build_demo(root, demo, os.path.join(root, 'demo'), extra)
